@@ -34,4 +34,28 @@ let run (toks : string list) (cout : string list) : string =
               else if (sp.ident_zero || sp.degree = 0) && refr <> [] then "MODEL-ERROR degenerate specialisation with roots"
               else "CHECK ok"
             | _ -> "CHECK fail: malformed output"))
+    | "isof" ->
+      (* the per-factor lists the library computes are handed to the EXTRACTED assembly (gather, sort, de-duplicate)
+         on the ranks of the reference roots; its result must be the list lp_polynomial_roots_isolate returned *)
+      let st = structure c in
+      let sp = specialise_case c st in
+      let refr = reference_roots c sp st in
+      let rank v = (match rank_of refr v with Some i -> zi i
+                                          | None -> raise (Bad_value "a per-factor root is not a root of the specialisation")) in
+      let rec parts toks acc =
+        match toks with
+        | "F" :: _ -> let (vs, rest) = read_values "F" toks in parts rest (FRoots (List.map rank vs) :: acc)
+        | "K" :: s :: rest -> parts rest (FConst (zi (int_of_string s)) :: acc)
+        | _ -> (List.rev acc, toks) in
+      let (fs, rest) = parts cout [] in
+      let (final, _) = read_values "R" rest in
+      (match check_roots refr final with
+       | Some w -> "CHECK fail: " ^ w
+       | None ->
+         let expected = z_roots_isolate_assemble fs in
+         let got = List.map rank final in
+         if expected <> got then
+           "CHECK fail: assembly of the per-factor lists: model [" ^ String.concat " " (List.map string_of_z expected) ^
+           "], implementation [" ^ String.concat " " (List.map string_of_z got) ^ "] (ranks among the reference roots)"
+         else "CHECK ok")
     | _ -> "UNKNOWN-OP")
